@@ -72,8 +72,8 @@ Qed.
 
 (* ------------------------------------------------------------------------------------------------ pass 4 *)
 
-Lemma struct_el : forall pk idx n attrs kids,
-  val_struct pk idx (Elem MATHML_NS n attrs kids) = val_node pk idx n attrs kids (val_struct_kids (mkids kids) kids 0).
+Lemma struct_el : forall fx pk idx n attrs kids,
+  val_struct fx pk idx (Elem MATHML_NS n attrs kids) = val_node fx pk idx n attrs kids (val_struct_kids fx (mkids kids) kids 0).
 Proof.
   intros. cbn [val_struct]. rewrite String.eqb_refl. cbn [negb]. f_equal.
   generalize (mkids kids) as mk. generalize 0 as i.
@@ -90,16 +90,16 @@ Proof.
   destruct (strip m); [discriminate H|discriminate E].
 Qed.
 
-Lemma struct_leaf1 : forall op a, In op ops1 -> val_struct [m_leaf op; a] 0 (m_leaf op) = [].
-Proof. intros op a H. in_cases H; reflexivity. Qed.
-Lemma struct_leaf2 : forall op a b, In op ops2 -> val_struct [m_leaf op; a; b] 0 (m_leaf op) = [].
-Proof. intros op a b H. in_cases H; reflexivity. Qed.
-Lemma struct_leaf3 : forall op a b c, In op ops3 -> val_struct [m_leaf op; a; b; c] 0 (m_leaf op) = [].
-Proof. intros op a b c H. in_cases H; reflexivity. Qed.
-Lemma struct_const : forall c pk idx, In c constants -> val_struct pk idx (m_leaf c) = [].
-Proof. intros c pk idx H. in_cases H; reflexivity. Qed.
-Lemma struct_ci : forall v pk idx, In v std_vars -> val_struct pk idx (m_ci v) = [].
-Proof. intros v pk idx H. in_cases H; reflexivity. Qed.
+Lemma struct_leaf1 : forall fx op a, In op ops1 -> val_struct fx [m_leaf op; a] 0 (m_leaf op) = [].
+Proof. intros fx op a H. destruct fx; in_cases H; reflexivity. Qed.
+Lemma struct_leaf2 : forall fx op a b, In op ops2 -> val_struct fx [m_leaf op; a; b] 0 (m_leaf op) = [].
+Proof. intros fx op a b H. destruct fx; in_cases H; reflexivity. Qed.
+Lemma struct_leaf3 : forall fx op a b c, In op ops3 -> val_struct fx [m_leaf op; a; b; c] 0 (m_leaf op) = [].
+Proof. intros fx op a b c H. destruct fx; in_cases H; reflexivity. Qed.
+Lemma struct_const : forall fx c pk idx, In c constants -> val_struct fx pk idx (m_leaf c) = [].
+Proof. intros fx c pk idx H. in_cases H; reflexivity. Qed.
+Lemma struct_ci : forall fx v pk idx, In v std_vars -> val_struct fx pk idx (m_ci v) = [].
+Proof. intros fx v pk idx H. in_cases H; reflexivity. Qed.
 
 Ltac mathml_facts :=
   repeat match goal with
@@ -110,22 +110,22 @@ Ltac mathml_facts :=
              end
          end.
 
-Lemma node_apply : forall pk idx kids sub, 1 <= length (mkids kids) -> val_node pk idx "apply" [] kids sub = sub.
+Lemma node_apply : forall fx pk idx kids sub, 1 <= length (mkids kids) -> val_node fx pk idx "apply" [] kids sub = sub.
 Proof.
   intros. unfold val_node. change (vclass_of "apply") with VApply. cbn beta iota.
   apply Nat.leb_le in H. now rewrite H.
 Qed.
-Lemma node_piecewise : forall pk idx kids sub, val_node pk idx "piecewise" [] kids sub = sub.
+Lemma node_piecewise : forall fx pk idx kids sub, val_node fx pk idx "piecewise" [] kids sub = sub.
 Proof. reflexivity. Qed.
-Lemma node_piece : forall pk idx kids sub, length (mkids kids) = 2 -> val_node pk idx "piece" [] kids sub = sub.
+Lemma node_piece : forall fx pk idx kids sub, length (mkids kids) = 2 -> val_node fx pk idx "piece" [] kids sub = sub.
 Proof. intros. unfold val_node. change (vclass_of "piece") with VPiece. cbn beta iota. now rewrite H. Qed.
-Lemma node_otherwise : forall pk idx kids sub, length (mkids kids) = 1 -> val_node pk idx "otherwise" [] kids sub = sub.
+Lemma node_otherwise : forall fx pk idx kids sub, length (mkids kids) = 1 -> val_node fx pk idx "otherwise" [] kids sub = sub.
 Proof. intros. unfold val_node. change (vclass_of "otherwise") with VOtherwise. cbn beta iota. now rewrite H. Qed.
-Lemma node_degree : forall a d kids sub, length (mkids kids) = 1 ->
-  val_node [m_leaf "root"; d; a] 1 "degree" [] kids sub = [].
+Lemma node_degree : forall fx a d kids sub, length (mkids kids) = 1 ->
+  val_node fx [m_leaf "root"; d; a] 1 "degree" [] kids sub = [].
 Proof. intros. unfold val_node. change (vclass_of "degree") with VDegree. cbn. now rewrite H. Qed.
-Lemma node_logbase : forall a d kids sub, length (mkids kids) = 1 ->
-  val_node [m_leaf "log"; d; a] 1 "logbase" [] kids sub = [].
+Lemma node_logbase : forall fx a d kids sub, length (mkids kids) = 1 ->
+  val_node fx [m_leaf "log"; d; a] 1 "logbase" [] kids sub = [].
 Proof. intros. unfold val_node. change (vclass_of "logbase") with VLogbase. cbn. now rewrite H. Qed.
 
 Ltac solve_len :=
@@ -137,7 +137,7 @@ Ltac struct_step :=
   repeat (first [ rewrite struct_el
                 | rewrite String.eqb_refl
                 | match goal with H : is_mathml ?a = true |- context [is_mathml ?a] => rewrite H end
-                | match goal with H : forall pk idx, val_struct pk idx ?a = [] |- context [val_struct _ _ ?a] => rewrite H end
+                | match goal with H : forall pk idx, val_struct _ pk idx ?a = [] |- context [val_struct _ _ _ ?a] => rewrite H end
                 | progress cbn [val_struct_kids mkids filter app is_mathml m_leaf m_el length]
                 | rewrite node_apply by solve_len
                 | rewrite node_piecewise
@@ -146,9 +146,9 @@ Ltac struct_step :=
                 | rewrite node_degree by solve_len
                 | rewrite node_logbase by solve_len ]).
 
-Lemma wf_struct : forall a, WFExpr a -> forall pk idx, val_struct pk idx a = [].
+Lemma wf_struct : forall fx a, WFExpr a -> forall pk idx, val_struct fx pk idx a = [].
 Proof.
-  induction 1; intros pk idx; mathml_facts.
+  intro fx. induction 1; intros pk idx; mathml_facts.
   - now apply struct_ci.
   - unfold m_cn. rewrite struct_el. unfold val_node. cbn [vclass_of in_list existsb String.eqb Ascii.eqb Bool.eqb orb].
     unfold val_cn_struct, non_comment_kids. rewrite visible_single. cbn. unfold node_is_basic_real, stripped. cbn [xml_to_string].
@@ -335,13 +335,14 @@ Qed.
 
 (** what the three validator passes need to know of a sub-tree *)
 Definition vfacts (x : xml) : Prop :=
-  is_mathml x = true /\ val_supported x = [] /\ val_cicn std_vars std_units x = [] /\ forall pk idx, val_struct pk idx x = [].
+  is_mathml x = true /\ val_supported x = [] /\ val_cicn std_vars std_units x = []
+  /\ forall fx pk idx, val_struct fx pk idx x = [].
 (** what the analyser needs to know of one side of an equation *)
 Definition afacts (x : xml) : Prop :=
   forall parent gp, exists r, ana_node std_vars parent gp x None = Ok r /\ printable true r = true /\ side_ok (Some r) = true.
 
 Lemma wf_vfacts : forall a, WFExpr a -> vfacts a.
-Proof. intros a H. repeat split; [now apply wf_mathml|now apply wf_supported|now apply wf_cicn|now apply wf_struct]. Qed.
+Proof. intros a H. repeat split; [now apply wf_mathml|now apply wf_supported|now apply wf_cicn|intros; now apply wf_struct]. Qed.
 
 Lemma not_diff_side_ok : forall r, ast_ty r <> DIFF -> side_ok (Some r) = true.
 Proof. intros [t v x l r] H. cbn in *. destruct t; try reflexivity. contradiction. Qed.
@@ -355,7 +356,7 @@ Qed.
 Definition ode_lhs (x t : string) : xml := m_apply "diff" [m_el "bvar" [m_ci t]; m_ci x].
 
 Lemma ode_vfacts : forall x t, In x std_vars -> In t std_vars -> vfacts (ode_lhs x t).
-Proof. intros x t Hx Ht. in_cases Hx; in_cases Ht; repeat split. Qed.
+Proof. intros x t Hx Ht. in_cases Hx; in_cases Ht; repeat split; intros [] pk idx; reflexivity. Qed.
 
 Lemma ode_afacts : forall x t, In x std_vars -> In t std_vars -> afacts (ode_lhs x t).
 Proof.
@@ -369,7 +370,10 @@ Proof.
   repeat split.
   - unfold m_el. rewrite sup_el. cbn [flat_map app]. now rewrite Sl, Sr.
   - unfold m_el. rewrite cicn_el. cbn [flat_map app String.eqb Ascii.eqb Bool.eqb]. now rewrite Cl, Cr.
-  - intros pk idx. unfold m_el at 1. struct_step.
+  - intros fx pk idx. unfold m_el at 1.
+    assert (Tl' : forall pk idx, val_struct fx pk idx lhs = []) by (intros; apply Tl).
+    assert (Tr' : forall pk idx, val_struct fx pk idx rhs = []) by (intros; apply Tr).
+    struct_step.
     change (Elem MATHML_NS "eq" [] []) with (m_leaf "eq"). rewrite struct_leaf2 by (unfold ops2; cbn; tauto). reflexivity.
 Qed.
 
@@ -426,9 +430,9 @@ Proof.
   induction 1 as [|e r He _ IH]; [reflexivity|]. cbn [flat_map].
   destruct (wfeqn_facts e He) as ((_ & _ & C & _) & _). now rewrite C, IH.
 Qed.
-Lemma all_struct : forall eqs, Forall WFEqn eqs -> forall mk i, val_struct_kids mk eqs i = [].
+Lemma all_struct : forall fx eqs, Forall WFEqn eqs -> forall mk i, val_struct_kids fx mk eqs i = [].
 Proof.
-  induction 1 as [|e r He _ IH]; intros mk i; [reflexivity|]. cbn [val_struct_kids].
+  intro fx. induction 1 as [|e r He _ IH]; intros mk i; [reflexivity|]. cbn [val_struct_kids].
   destruct (wfeqn_facts e He) as ((M & _ & _ & T) & _). now rewrite M, T, IH.
 Qed.
 Lemma all_ana : forall eqs, Forall WFEqn eqs -> forall root, is_mathml_el "math" root = true ->
@@ -440,18 +444,22 @@ Proof.
 Qed.
 
 (** The contract on the generators' grammar: the validator raises nothing and the analyser reads the document. *)
-Theorem val_implies_ana_partial : forall x, WellFormedMath x -> val_math x = [] /\ ana x <> None.
+Theorem val_implies_ana_partial_gen : forall fx x, WellFormedMath x ->
+  val_math_env_gen fx std_vars std_units x = [] /\ ana x <> None.
 Proof.
-  intros x (eqs & -> & Hall). split.
-  - unfold val_math, val_math_env. change (is_mathml_el "math" (m_math eqs)) with true. unfold m_math, m_el.
+  intros fx x (eqs & -> & Hall). split.
+  - unfold val_math_env_gen. change (is_mathml_el "math" (m_math eqs)) with true. unfold m_math, m_el.
     cbn [negb kids_of].
     change ((fix go (ks : list xml) : list rule := match ks with [] => [] | k :: r => val_supported k ++ go r end) eqs)
       with (flat_map val_supported eqs).
-    rewrite (all_supported eqs Hall), cicn_el, (all_cicn eqs Hall), (all_struct eqs Hall). reflexivity.
+    rewrite (all_supported eqs Hall), cicn_el, (all_cicn eqs Hall), (all_struct fx eqs Hall). reflexivity.
   - unfold ana, ana_node_opt, ana_math_env. unfold m_math, m_el. cbn [kids_of].
     rewrite (visible_mathml eqs (all_mathml eqs Hall)).
     destruct (all_ana eqs Hall (Elem MATHML_NS "math" [] eqs) eq_refl) as (l & El). rewrite El. discriminate.
 Qed.
+
+Theorem val_implies_ana_partial : forall x, WellFormedMath x -> val_math x = [] /\ ana x <> None.
+Proof. intros x H. apply (val_implies_ana_partial_gen arity_fix_committed x H). Qed.
 
 (** non-vacuity: a document of the grammar that uses most constructors *)
 Example wf_example :
